@@ -50,7 +50,7 @@ CHECKS = {
         thorough=[mc(3, [2, 5, 6], DEL + GC, DEL + GC + BUT + ['add_edge', 'add_face_v', 'add_cell_closed']),
                   mc(2, SMALL + EXTRA, DEL, SWAP + SETS, Modes='ModesTwo'),
                   mc(4, [1, 5], ['delete_cell', 'delete_face', 'add_cell_closed'], GC + ['enable_deferred', 'delete_cell'], Modes='ModesDeferred')],
-        sim=dict(ops=DEL + GC + ADDS + BUT + SWAP + MODE + SETS),
+        sim=dict(ops=DEL + GC + ADDS + BUT + SWAP + MODE + SETS + ['enable_bu', 'reorder', 'reserve']),
     ),
     'C02': dict(
         props=['C02'], opts='props=1',
@@ -100,14 +100,14 @@ CHECKS = {
     'C09': dict(
         props=['C09'], opts='props=0 q=8',
         quick=[mc(2, [2, 3, 5, 7, 8], DEL + ['add_cell_closed'], DEL + GC + ['add_cell_closed'] + BUT, BUSets='BUOn'),
-               mc(1, [2, 3, 5, 7, 8], [], SWAP, Modes='ModesDefault', BUSets='BUOn'),
+               mc(1, [2, 3, 5, 7, 8], [], SWAP + ['reorder', 'enable_bu', 'reserve'], Modes='ModesDefault', BUSets='BUOn'),
                # fans built or modified while some incidence kind is off, then switched on (the reorder pass)
                mc(2, [3, 7, 8], BUT + ['delete_cell'], BUT, Modes='ModesTwo', BUSets='BUAll'),
                mc(3, [3, 7, 8], ['delete_cell', 'add_cell_closed'], ['delete_cell', 'delete_face', 'add_cell_closed'], Modes='ModesTwo', BUSets='BUOn')],
         thorough=[mc(3, [2, 3, 5, 7, 8], DEL + GC + ['add_cell_closed'], DEL + GC + ['add_cell_closed'] + BUT, Modes='ModesTwo', BUSets='BUOn'),
                   mc(2, [2, 3, 5, 7, 8, 9, 10], DEL, SWAP + BUT, BUSets='BUOn'),
                   mc(4, [3, 7, 8], ['delete_cell', 'add_cell_closed'], ['delete_cell', 'delete_face', 'add_cell_closed'] + GC, Modes='ModesTwo', BUSets='BUOn')],
-        sim=dict(ops=DEL + GC + ADDS + BUT + SWAP + MODE, BUSets='BUOn'),
+        sim=dict(ops=DEL + GC + ADDS + BUT + SWAP + MODE + ['reorder', 'enable_bu'], BUSets='BUOn'),
     ),
     'C10': dict(
         props=['C10'], opts='props=0 q=16',
@@ -133,11 +133,11 @@ CHECKS = {
     'C12': dict(
         props=['C12', 'C01', 'C09'], opts='props=1 twin=1 q=1', variant='san',
         quick=[mc(2, [2, 5, 6], DEL + BUT, DEL + GC + BUT + ['add_edge', 'add_face_v', 'add_cell_closed', 'enable_deferred'], Modes='ModesTwo'),
-               mc(1, MAINSEEDS, [], SWAP, Modes='ModesDefault')],
+               mc(1, MAINSEEDS, [], SWAP + ['enable_bu', 'reorder', 'reserve'], Modes='ModesDefault')],
         thorough=[mc(3, [5, 6], DEL + GC + BUT, DEL + BUT + GC + ['add_edge', 'add_face_v', 'add_cell_closed', 'enable_deferred']),
                   mc(3, [2], DEL + BUT, DEL + BUT + GC, Modes='ModesTwo'),
                   mc(2, [2, 5, 6, 11, 12], DEL + BUT, SWAP, Modes='ModesTwo')],
-        sim=dict(ops=DEL + GC + ADDS + BUT + BUT + SWAP + MODE),
+        sim=dict(ops=DEL + GC + ADDS + BUT + BUT + SWAP + MODE + ['enable_bu', 'reorder', 'reserve']),
     ),
     'C17': dict(
         props=['C17', 'C03', 'C01'], opts='props=2',
